@@ -213,24 +213,55 @@ Qed.
 Definition qrune (r : N) : inp := if CteEnc.rune_safe r then [r] else CteEnc.escape_rune r.
 Definition qbody (rs : list N) : inp := flat_map qrune rs.
 
-Lemma hex_escape_reads r f idx rest acc : r < 2 ^ 32 ->
-  lex_str (S f) idx (92 :: 91 :: CteEnc.to_digits 16 r ++ 93 :: rest) acc =
-  lex_str f idx rest (acc ++ CteLit.utf8_enc r).
+(* parseHexCodepoint on the hex digits of [r] (since fix 9d7e9c8 of /repo a value that is not a Unicode scalar
+   value is an error; before, it became U+FFFD) *)
+Lemma impl_codepoint_digits r : r < 2 ^ 32 ->
+  CteLit.impl_codepoint (CteEnc.to_digits 16 r) = if CteLit.valid_scalar r then Ok (CteLit.utf8_enc r) else Err.
 Proof.
   intro Hr.
   assert (Hch := to_digits_chars 16 r ltac:(lia)).
   assert (Hne := to_digits_nonempty 16 r).
   assert (Hv : CteLit.hex_val (CteEnc.to_digits 16 r) = r) by (apply to_digits_val; lia).
   set (ds := CteEnc.to_digits 16 r) in *. clearbody ds.
-  assert (Hall : forallb is_hex ds = true).
-  { apply forallb_forall. intros c Hc. rewrite Forall_forall in Hch. apply digit_below_hex, Hch, Hc. }
   assert (Hall2 : forallb CteLit.is_hex ds = true).
+  { apply forallb_forall. intros c Hc. rewrite Forall_forall in Hch. apply digit_below_hex, Hch, Hc. }
+  unfold CteLit.impl_codepoint, CteLit.go_parse_uint. destruct ds as [|c0 cs]; [congruence|].
+  change (16 =? 0) with false. cbv iota. cbn [andb].
+  change 16 with (CteLit.ibase_n CteLit.B16). rewrite (CteLitProofs.go_digits_chars CteLit.B16 false (c0 :: cs) 0 Hall2).
+  change (CteLit.ibase_n CteLit.B16) with 16. change (CteLit.chars_val 16 (c0 :: cs) 0) with (CteLit.hex_val (c0 :: cs)).
+  rewrite Hv. replace (r <? 2 ^ 32) with true by lia. reflexivity.
+Qed.
+
+Lemma hex_escape_lex r f idx rest acc : r < 2 ^ 32 ->
+  lex_str (S f) idx (92 :: 91 :: CteEnc.to_digits 16 r ++ 93 :: rest) acc =
+  if CteLit.valid_scalar r then lex_str f idx rest (acc ++ CteLit.utf8_enc r) else None.
+Proof.
+  intro Hr. assert (Hcp := impl_codepoint_digits r Hr).
+  assert (Hch := to_digits_chars 16 r ltac:(lia)).
+  assert (Hne := to_digits_nonempty 16 r).
+  set (ds := CteEnc.to_digits 16 r) in *. clearbody ds.
+  assert (Hall : forallb is_hex ds = true).
   { apply forallb_forall. intros c Hc. rewrite Forall_forall in Hch. apply digit_below_hex, Hch, Hc. }
   cbn [lex_str]. change (92 =? 34) with false. change (92 =? 92) with true.
   change (91 =? 46) with false. change (91 =? 91) with true. cbv iota.
   rewrite (span_all is_hex ds (93 :: rest) Hall) by reflexivity.
-  rewrite (CteLitProofs.codepoint_exact ds Hne Hall2) by (rewrite Hv; exact Hr).
-  rewrite Hv. destruct ds as [|c0 cs]; [congruence|]. reflexivity.
+  rewrite Hcp. destruct ds as [|c0 cs]; [congruence|]. destruct (CteLit.valid_scalar r); reflexivity.
+Qed.
+
+(* the escape the encoder writes for a scalar value is read back as that value *)
+Lemma hex_escape_reads r f idx rest acc : scalar r ->
+  lex_str (S f) idx (92 :: 91 :: CteEnc.to_digits 16 r ++ 93 :: rest) acc =
+  lex_str f idx rest (acc ++ CteLit.utf8_enc r).
+Proof.
+  intro Hs. rewrite hex_escape_lex by (unfold scalar in Hs; lia). rewrite (proj1 (scalar_valid r) Hs). reflexivity.
+Qed.
+
+(* an escape for a surrogate or a value above U+10FFFF is rejected *)
+Lemma hex_escape_not_scalar r f idx rest acc : r < 2 ^ 32 -> ~ scalar r ->
+  lex_str (S f) idx (92 :: 91 :: CteEnc.to_digits 16 r ++ 93 :: rest) acc = None.
+Proof.
+  intros Hr Hs. rewrite hex_escape_lex by exact Hr. destruct (CteLit.valid_scalar r) eqn:E; [|reflexivity].
+  exfalso. apply Hs, scalar_valid, E.
 Qed.
 
 Lemma qrune_reads r f idx rest acc : scalar r ->
@@ -247,7 +278,7 @@ Proof.
     destruct (N.eqb_spec r 42); [subst; reflexivity|].
     destruct (N.eqb_spec r 47); [subst; reflexivity|].
     destruct (N.eqb_spec r 92); [subst; reflexivity|].
-    cbn [app]. rewrite <- app_assoc. cbn [app]. apply hex_escape_reads. unfold scalar in Hs. lia.
+    cbn [app]. rewrite <- app_assoc. cbn [app]. apply hex_escape_reads, Hs.
 Qed.
 
 Lemma qrune_length r : (1 <= length (qrune r))%nat.
@@ -1154,23 +1185,27 @@ Proof.
   apply (proj1 (forallb_forall _ _) S), H.
 Qed.
 
-Lemma parse_custom_type ct : ct < 2 ^ 64 -> CteLit.go_parse_uint (CteEnc.dec ct) 0 64 = Some ct.
+(* parseSmallUint = ParseUint(text, 10, 64) (base 0 before fix 601f9e0 of /repo): a run of decimal digits is read
+   as its decimal value, leading zeros or not *)
+Lemma parse_custom_digits ds : ds <> [] -> forallb is_dec ds = true ->
+  CteLit.go_parse_uint ds 10 64 = if dval ds <? 2 ^ 64 then Some (dval ds) else None.
 Proof.
-  intro H. destruct (N.eq_dec ct 0) as [E|E].
-  - subst. reflexivity.
-  - unfold CteEnc.dec. destruct (to_digits_head 10 ct ltac:(lia) E) as [d [r [Ed [Hd0 Hd]]]].
-    assert (Hv := to_digits_val 10 ct ltac:(lia) ltac:(lia)).
-    assert (Hch := to_digits_chars 10 ct ltac:(lia)).
-    rewrite Ed in *. unfold CteLit.go_parse_uint.
-    assert (Hc0 : CteEnc.digit_char d <> 48) by (unfold CteEnc.digit_char; replace (d <? 10) with true by lia; lia).
-    change (0 =? 0) with true. cbv iota. cbn [CteLit.base0_prefix]. apply N.eqb_neq in Hc0. rewrite Hc0.
-    assert (Hok : forallb (CteLit.digit_ok CteLit.B10) (CteEnc.digit_char d :: r) = true).
-    { apply forallb_forall. intros c Hc. rewrite Forall_forall in Hch. cbn [CteLit.digit_ok]. apply digit_below_dec, Hch, Hc. }
-    assert (Hg := CteLitProofs.go_digits_chars CteLit.B10 true _ 0 Hok). cbn [CteLit.ibase_n] in Hg. rewrite Hg, Hv.
-    assert (Hus : CteLit.has_us (CteEnc.digit_char d :: r) = false).
-    { unfold CteLit.has_us. apply Bool.not_true_is_false. intro Hx. apply existsb_exists in Hx as [c [Hc Hu]].
-      rewrite Forall_forall in Hch. destruct (digit_below_dec c (Hch c Hc)) as [_ [_ B]]. unfold CteLit.is_us, CteLit.c_us in Hu. lia. }
-    rewrite Hus. cbn [andb]. replace (ct <? 2 ^ 64) with true by lia. reflexivity.
+  intros Hne Hd. unfold CteLit.go_parse_uint. destruct ds as [|c r]; [congruence|].
+  change (10 =? 0) with false. cbv iota. cbn [andb].
+  assert (Hok : forallb (CteLit.digit_ok CteLit.B10) (c :: r) = true).
+  { apply forallb_forall. intros x Hx. apply (proj1 (forallb_forall _ _) Hd) in Hx. exact Hx. }
+  assert (Hg := CteLitProofs.go_digits_chars CteLit.B10 false _ 0 Hok). cbn [CteLit.ibase_n] in Hg. rewrite Hg. reflexivity.
+Qed.
+
+Lemma parse_custom_type ct : ct < 2 ^ 64 -> CteLit.go_parse_uint (CteEnc.dec ct) 10 64 = Some ct.
+Proof.
+  intro H. unfold CteEnc.dec.
+  assert (Hne := to_digits_nonempty 10 ct).
+  assert (Hv := to_digits_val 10 ct ltac:(lia) ltac:(lia)).
+  assert (Hch := to_digits_chars 10 ct ltac:(lia)).
+  rewrite parse_custom_digits; [|exact Hne|].
+  - unfold dval. rewrite Hv. replace (ct <? 2 ^ 64) with true by lia. reflexivity.
+  - apply forallb_forall. intros c Hc. rewrite Forall_forall in Hch. apply digit_below_dec, Hch, Hc.
 Qed.
 
 Lemma at_token_custom ct t r : ct < 2 ^ 64 -> t = 91 \/ t = 34 ->
